@@ -94,6 +94,7 @@ type scenario struct {
 	farPre  int // bytes the far endpoint consumed as protocol preamble
 	farHead int // bytes of the far endpoint's protocol reply preceding the tunnel payload
 	timeout atomic.Bool
+	lcAttached atomic.Int64
 	emu     sync.Mutex
 	errs    []string
 	closedC map[string]chan struct{}
@@ -302,7 +303,12 @@ func (e *endpoint) readLoop(s *sink, first []byte, done chan struct{}) {
 	bufN := 64 * 1024
 	slow := e.sc.SlowReader[1-e.d]
 	if slow {
+		// small reads with pauses (back-pressure on the proxy), but never so small that a large
+		// payload takes the harness itself tens of seconds to read
 		bufN = 1 + e.sc.rnd(6000)
+		if min := len(s.expect) / 1500; bufN < min {
+			bufN = min
+		}
 	}
 	buf := make([]byte, bufN)
 	reads := 0
@@ -326,7 +332,7 @@ func (e *endpoint) readLoop(s *sink, first []byte, done chan struct{}) {
 			return
 		}
 		reads++
-		if slow && reads%4 == 0 {
+		if slow && reads%4 == 0 && reads < 6000 {
 			time.Sleep(time.Duration(50+e.sc.rnd(300)) * time.Microsecond)
 		}
 	}
@@ -421,9 +427,11 @@ func (sc *scenario) runClient(proxyAddr string, wg *sync.WaitGroup) {
 		return
 	}
 	tc := c.(*net.TCPConn)
-	reg.put(tc.LocalAddr().String(), sc)
-	defer reg.del(tc.LocalAddr().String())
+	key := tc.LocalAddr().String() + "->" + tc.RemoteAddr().String()
+	reg.put(key, sc)
+	// deferred calls run last-in first-out: the registry entry goes before the port is released
 	defer tc.Close()
+	defer reg.del(key, sc)
 	tc.SetDeadline(sc.deadline)
 	e := &endpoint{sc: sc, who: "client", d: CT, conn: tc, cw: tc.CloseWrite}
 
@@ -521,7 +529,6 @@ func readUntilCRLFCRLF(c net.Conn) (head, rest []byte, err error) {
 // upstream proxy (HTTP, HTTPS, SOCKS5) that answers and then plays the target.
 func (sc *scenario) runFar(l net.Listener, tlsCfg *tls.Config, wg *sync.WaitGroup) {
 	defer wg.Done()
-	defer l.Close()
 	l.(*net.TCPListener).SetDeadline(sc.deadline)
 	raw, err := l.Accept()
 	if err != nil {
